@@ -186,6 +186,16 @@ const SHARED_SIG: &str = "identity:routers-from-one-address-share-router-id";
 static NEXT_PORT: std::sync::atomic::AtomicU32 = std::sync::atomic::AtomicU32::new(0);
 
 fn run_scn(scn: &Scn, queries: &[Pfx]) -> Outcome {
+    // wire-level variation the tokens do not show (per-peer-header timestamps 0 / small / large, every Peer Down
+    // reason code 1-6), for every second scenario and as a function of the scenario, so that a replay builds the
+    // same bytes
+    let shape: Vec<u64> = scn.ops.iter().map(|o| match o {
+        Op::Connect(i) => 100 + *i as u64, Op::Disconnect(i) => 200 + *i as u64,
+        Op::Msg(i, m) => 1000 * (1 + *i as u64) + match m { M::Init => 1, M::Term => 2, M::PeerUp(h) => 10 + *h as u64, M::PeerDown(h) => 30 + *h as u64, M::Stats(h) => 50 + *h as u64, M::Rm(h, _) => 70 + *h as u64 },
+    }).collect();
+    let salt = shape.iter().fold(0xcbf29ce484222325u64, |h, b| (h ^ *b).wrapping_mul(0x100000001b3));
+    verif_harness::bmp::set_flavour(if salt & 1 == 1 { salt | 1 } else { 0 });
+    let fl = verif_harness::bmp::flavoured;
     let mut rib = RealRib::new();
     // the real unit: accept loop (`BmpTcpInRunner::run`: find_or_register_bmp_router, router_connected) and, per
     // connection, the real `RouterHandler::read_from_router` (framing, process_msg, the epilogue) on an in-memory reader;
@@ -242,15 +252,15 @@ fn run_scn(scn: &Scn, queries: &[Pfx]) -> Outcome {
             None => (None, "x".into(), None),
             Some(M::Init) => (Some(mk_initiation_msg("verif-router", "verif")), "i".into(), None),
             Some(M::Term) => (Some(mk_termination_msg()), "t".into(), None),
-            Some(M::PeerDown(h)) => (Some(mk_peer_down_notification_msg(&peer(*h).pph())), format!("d.{h}"), None),
-            Some(M::Stats(h)) => (Some(mk_statistics_report_msg(&peer(*h).pph())), format!("s.{h}"), None),
+            Some(M::PeerDown(h)) => (Some(fl(mk_peer_down_notification_msg(&peer(*h).pph()))), format!("d.{h}"), None),
+            Some(M::Stats(h)) => (Some(fl(mk_statistics_report_msg(&peer(*h).pph()))), format!("s.{h}"), None),
             Some(M::PeerUp(h)) => {
                 let b = BmpRouter::peer_up_msg(&peer(*h));
                 let (gr, c4) = match BmpMsg::from_octets(b.clone()) {
                     Ok(BmpMsg::PeerUpNotification(pu)) => (pu.bgp_open_rcvd().capabilities().any(|c| c.typ() == routecore::bgp::message::open::CapabilityType::GracefulRestart), pu.session_config().four_octet_enabled()),
                     _ => (false, true),
                 };
-                (Some(b), format!("u.{h}.{}.{}", gr as u8, c4 as u8), None)
+                (Some(fl(b)), format!("u.{h}.{}.{}", gr as u8, c4 as u8), None)
             }
             Some(M::Rm(h, spec)) => {
                 let Some((pdu, pas)) = rm_pdu(spec) else { continue };
